@@ -261,10 +261,14 @@ func c15Snapshots(rep *explore.Report, w *world.World, c c15Case) {
 		}
 		return p
 	}
+	bare := func(p *v1.Pod) *v1.Pod { p.Labels = nil; return p }
 	pops := [][]*v1.Pod{
 		{mk(0, v1.PodRunning, true, "web-old"), mk(1, v1.PodRunning, true, "web-old"), mk(2, v1.PodRunning, true, "web-old")},
 		{mk(0, v1.PodRunning, true, "web-old"), mk(1, v1.PodRunning, false, "web-old"), mk(3, v1.PodRunning, true, "web-old")},
 		{mk(1, v1.PodFailed, false, "web-old"), mk(2, v1.PodRunning, true, "web-old"), mk(5, v1.PodPending, false, "")},
+		// pods without any label (a selector that is empty or made of NotIn/DoesNotExist expressions matches them)
+		{bare(mk(0, v1.PodRunning, true, "")), bare(mk(1, v1.PodPending, false, ""))},
+		{mk(0, v1.PodRunning, true, "web-old"), bare(mk(1, v1.PodRunning, true, ""))},
 		// ordinals at the edge of the int32 range (valid pod names, parsed like any other)
 		{mk(0, v1.PodRunning, true, "web-old"), mk(math.MaxInt32, v1.PodPending, false, "web-old")},
 		{mk(math.MaxInt32, v1.PodRunning, true, "web-old"), mk(math.MaxInt32-1, v1.PodFailed, false, "web-old")},
@@ -349,7 +353,7 @@ func init() {
 			sizes = append(sizes, fmt.Sprintf("%s:%d", n, len(dims[n])))
 		}
 		rep.Rule = "manifest dimensions (" + strings.Join(sizes, " x ") + "): full product of the core dimensions replicas x podManagementPolicy x updateStrategy x annotations, times every choice of at most 1 (thorough: 2) of the remaining dimensions away from its first value, plus spec-less objects; each admitted (pruned, defaulted, validated) by a mini structural-schema interpreter reading /repo/manifests/crd.v1.yaml version " + ver +
-			", decoded into the typed object, with and without client-side SetObjectDefaults; each object is driven through a journey of real reconciles (create, steady, template change, failed pod, scale-in at slot 0, deletion; kubelet steps in between) and reconciled against 6 hand-made pod populations (three with pods at ordinals 2^31-1 and 2^31-2) and 20 populations holding a revision whose data this controller did not write (not JSON, template of the wrong type, null partition / selector / spec, ...), named by status.currentRevision or only by pod labels; every reconcile must return without panicking; the same oracle runs over the ownership grid of C10/C13 (own / orphan / foreign pods and revisions, deleting and stale sets). Replica counts at the top of the int32 range (2^31-1, with and without delete slots below) are reconciled once each in a child process under an address-space limit, because the controller sizes a slice by the replica count. distinct = distinct start states."
+			", decoded into the typed object, with and without client-side SetObjectDefaults; each object is driven through a journey of real reconciles (create, steady, template change, failed pod, scale-in at slot 0, deletion; kubelet steps in between) and reconciled against 8 hand-made pod populations (two with pods that carry no label at all) (three with pods at ordinals 2^31-1 and 2^31-2) and 20 populations holding a revision whose data this controller did not write (not JSON, template of the wrong type, null partition / selector / spec, ...), named by status.currentRevision or only by pod labels; every reconcile must return without panicking; the same oracle runs over the ownership grid of C10/C13 (own / orphan / foreign pods and revisions, deleting and stale sets). Replica counts at the top of the int32 range (2^31-1, with and without delete slots below) are reconciled once each in a child process under an address-space limit, because the controller sizes a slice by the replica count. distinct = distinct start states."
 		rep.Assumptions = []string{"the mini interpreter (type, required, properties, items, minimum, default, x-kubernetes-preserve-unknown-fields) stands in for the apiextensions validator, which cannot be built offline", "only type-correct values are generated for fields the typed client decodes", "replicas / slots near MaxInt32 are excluded (the reconciler allocates a slice of that length)"}
 		deadline := explore.Deadline(100*time.Second, 15*time.Minute)
 		ch := make(chan c15Case, 64)
